@@ -24,6 +24,9 @@ CHECKS = {
  "C18": ("depth biconditional monitor over generated recursive declarations and positioned inputs + deterministic work counting (counting leaf converter, sys.monitoring LINE steps) with a growth-ratio oracle",
          "accept <=> nesting depth <= max_depth for chains through every link kind and position (list index 0/1/last, dict keys incl. '' and float keys, tuple slots, union branches, mutual recursion, cyclic inputs); work curves for depth 3..7 (8 thorough) and width 10..640 over every (link, flag set, leaf kind) combination must not grow by >1.9x per level throughout.",
          "Bounded restatement of 'at most polynomial' (ratio test over the stated range). The known exponential (staged union retries) is keyed by stage count; exponential growth under strict options or beyond stage count is a new violation. Step counts need sys.monitoring (inconclusive without).", "§4 C18"),
+ "C10": ("error-collection differential monitor: fail-fast vs collect_errors vs max_errors 1..3 on the same input, with singleton probes deciding which top-level items fail on their own",
+         "Same verdict and equal value with collection on/off; for rejected inputs exactly one CollectedParseError naming exactly the individually failing items once each, never a valid one, and exactly min(max_errors, #failing) of them when capped; over generated data classes/functions with nested, union, conjunction and nested-class field types.",
+         "Probes and both runs use the library itself (relation between runs). Declarations avoid no_input/mode/dependencies/duplicate spellings (C05/C06).", "§4 C10"),
  "C12": ("preference monitor at type_transform: subset/agreement relation between flag sets + independent promise predicates; hostile pool x targets exhaustive",
          "For every (source, target) pair of the hostile pool x 36 targets (quick, exhaustive over the pools) and 4e5 generated sources (thorough): a conversion that succeeds under no_explicit_cast / no_data_loss / both must succeed without flags with an equal same-type value; no_data_loss results must keep the listed promises; no_explicit_cast results must stay inside the documented primitive group.",
          "Trusted: promise_ndl()/src_groups() in vmon/props/c12.py (written from docs/en/references/options.md). Four mechanism-keyed known findings. Data classes receive runtime flags through __from__ (type_transform keeps a class's own options).", "§4 C12"),
